@@ -249,6 +249,20 @@ def _history(res: Result, h: int, payloads: list, loop, pairs_seen: set, distinc
                     spec = describe.spec_from_class(cls)
                     tree = g.struct(spec)
                     msgs.append((cls, spec, tree, describe.tree_to_instance(spec, tree)))
+            if h % 6 == 0:
+                # one message in the middle of the stream carries a payload beyond typical chunking thresholds (64 KiB; in the thorough
+                # tier sometimes 1 MiB): whatever reads or writes it in pieces must not touch its neighbours
+                big = [c for c in payloads if any(fs.kind == "prim" and fs.ktype in ("bytes", "records") and not fs.array for fs in describe.spec_from_class(c).fields)]
+                if big:
+                    pcls = rng.choice(big)
+                    spec = describe.spec_from_class(pcls)
+                    label = "len1048577" if res.tier == "thorough" and h % 60 == 0 else "len65537"
+                    tree = g.huge_payload_trees(spec, label)[0]
+                    at = rng.randrange(0, len(msgs) + 1, 2)  # keep (header, payload) pairs together
+                    hspec = describe.spec_from_class(pcls.__header_schema__)
+                    htree = g.struct(hspec)
+                    msgs[at:at] = [(pcls.__header_schema__, hspec, htree, describe.tree_to_instance(hspec, htree)), (pcls, spec, tree, describe.tree_to_instance(spec, tree))]
+                    res.count("histories_with_a_huge_payload")
             prefix = rng.randbytes(rng.choice((0, 0, 1, 5, 33)))
             suffix = rng.randbytes(rng.choice((0, 0, 1, 9, 64)))
             ref_parts = [refcodec.encode_bytes(spec, tree) for _, spec, tree, _ in msgs]
